@@ -19,3 +19,6 @@ mk_srv untrusted other "DNS:localhost,IP:127.0.0.1"
 rm -f *.srl other.key
 # weak = a server identity that parses but that the TLS library refuses to serve with (RSA-1024, "ee key too small"):
 # a server configured with it must not fall back to plain text.  (generated afterwards with the same recipe, rsa:1024)
+# decoy = a third CA that issued nothing here; bundle.crt = decoy.crt + ca.crt (in that order) is the trust file the checks
+# inject with SSL_CERT_FILE: a trust store usually holds many CAs and the one that matters is rarely the first.
+# (generated afterwards: mk_ca decoy "dverif decoy CA"; rm decoy.key; cat decoy.crt ca.crt > bundle.crt)
